@@ -21,7 +21,15 @@ def seeds():
     for m in sorted(glob.glob(os.path.join(HERE, "seeded", "*", "meta.json"))):
         d = json.load(open(m))
         name = os.path.basename(os.path.dirname(m))
-        out.append("| `seeded/%s` | %s | %s — needs: %s | %s | `%s` |" % (name, d["property"], d["breaks"], d["needs_to_manifest"], d["check"].get("first_verdict", ""), d["check"].get("caught_by", "")))
+        now = d["check"].get("now")
+        if now:
+            cell = ("`%s`" % "`, `".join(now["keys"][:3])) if now["keys"] else ("*%s*" % now["verdict"])
+            cell += " (tree %s)" % now.get("repo_head", "?")
+            if d.get("status_at_head"):
+                cell += "; " + d["status_at_head"]
+        else:
+            cell = "`%s`" % d["check"].get("caught_by", "")
+        out.append("| `seeded/%s` | %s | %s — needs: %s | %s | %s |" % (name, d["property"], d["breaks"], d["needs_to_manifest"], d["check"].get("first_verdict", ""), cell))
     return "\n".join(out)
 
 
